@@ -882,8 +882,13 @@ pub fn t13(prop: &str, seed: u64) -> RunDesc {
     } else {
         d.threads.push(thread(3, "worker", w));
     }
+    // fault: the 63-bit clock is about to wrap (the bags are sealed just before, or across, the wrap)
+    let wrap = rng.chance(0.2);
+    if wrap {
+        d.cfg.start_epoch = (1u64 << 63) - 1 - rng.below(6);
+    }
     d.cfg.step_cap = 1_500_000;
-    d.params = J::obj().set("template", "T13 expired bags are collected while a participant stays pinned").set("bags", bags).set("functions", bags * per).set("worker_rounds", rounds_n).set("worker_in_tls_destructor", worker_in_tls);
+    d.params = J::obj().set("clock_near_wrap", wrap).set("template", "T13 expired bags are collected while a participant stays pinned").set("bags", bags).set("functions", bags * per).set("worker_rounds", rounds_n).set("worker_in_tls_destructor", worker_in_tls);
     d
 }
 
@@ -995,7 +1000,11 @@ pub fn t15(prop: &str, seed: u64) -> RunDesc {
     if rng.chance(0.5) {
         d.threads.push(thread(0, "earlier", vec![o(K::Pin, 0, 0, 0, 0), o(K::Unpin, 0, 0, 0, 0)]));
     }
-    d.params = J::obj().set("template", "T15 a thread-local destructor collects its own garbage alone").set("functions", k);
+    let wrap = rng.chance(0.2);
+    if wrap {
+        d.cfg.start_epoch = (1u64 << 63) - 1 - rng.below(6);
+    }
+    d.params = J::obj().set("template", "T15 a thread-local destructor collects its own garbage alone").set("functions", k).set("clock_near_wrap", wrap);
     d
 }
 
@@ -1050,6 +1059,40 @@ pub fn t16(prop: &str, seed: u64) -> RunDesc {
         d.threads.push(n);
     }
     d.params = J::obj().set("template", "T16 revived object republished and unlinked under a later reader while its first attempt is pending").set("revived_by", how).set("clock_moves_between", k).set("rounds_after", m2);
+    d
+}
+
+/// T17: fault = a deferred function panics inside the collection that `reactivate` (or the
+/// first half of `reactivate_after`) runs on the sole guard of a thread, and the caller catches
+/// the panic. The guard is still alive afterwards, so the thread has to be inside a critical
+/// section still (C16), and what it protects stays protected.
+pub fn t17(prop: &str, seed: u64) -> RunDesc {
+    let mut rng = Rng::new(seed);
+    let mut d = base(&mut rng, prop, "dir-t17", seed, 3);
+    d.cfg.stall = None;
+    d.cfg.dtor_api = 0;
+    d.cfg.manual_interval = 64;
+    d.cfg.max_objects = 8;
+    // the garbage: one bag that holds nothing but the panicking function, expired but still queued
+    let mut a = vec![o(K::Await, 1, 0, 0, 0), o(K::Pin, 0, 0, 0, 0), o(K::Defer, 0, 0, 0, 1), o(K::Flush, 0, 0, 0, 0), o(K::Unpin, 0, 0, 0, 0)];
+    for _ in 0..4 + rng.below(3) {
+        a.extend([o(K::Pin, 0, 0, 0, 0), o(K::TryAdvance, 0, 0, 0, 0), o(K::Unpin, 0, 0, 0, 0)]);
+    }
+    a.push(o(K::Signal, 2, 0, 0, 0));
+    d.threads.push(thread(1, "garbage", a));
+    // the victim (its first pin, which collects, is out of the way before the garbage exists)
+    let after = rng.chance(0.4);
+    let mut v = vec![o(K::New, 0, NONE_SLOT, 2, 0), o(K::Pin, 0, 0, 0, 0), o(K::Store, ROOT0, 0, 0, 0), o(K::Unpin, 0, 0, 0, 0), o(K::Signal, 1, 0, 0, 0), o(K::Await, 2, 0, 0, 0)];
+    v.extend([o(K::Pin, 0, 0, 0, 0), o(K::Flush, 0, 0, 0, 0)]);
+    v.push(if after { o(K::ReactAfter, 0, 0, 0, 0) } else { o(K::Reactivate, 0, 1, 0, 0) });
+    // the guard is used again: what it loads now must be protected like under any guard
+    v.extend([o(K::Load, ROOT0, 0, 0, 0), o(K::Signal, 3, 0, 0, 0), o(K::Await, 4, 0, 0, 0), o(K::DerefSnap, 0, 0, 0, 0), o(K::Unpin, 0, 0, 0, 0)]);
+    d.threads.push(thread(1, "victim", v));
+    let mut u = vec![o(K::Await, 3, 0, 0, 0), o(K::Pin, 0, 0, 0, 0), o(K::Store, ROOT0, NONE_SLOT, 0, 0), o(K::Flush, 0, 0, 0, 0), o(K::Unpin, 0, 0, 0, 0)];
+    u.extend(rounds(3 + rng.below(4) as usize));
+    u.push(o(K::Signal, 4, 0, 0, 0));
+    d.threads.push(thread(1, "unlink-and-collect", u));
+    d.params = J::obj().set("template", "T17 a deferred function panics inside the collection run by reactivate on a sole guard").set("reactivate_after", after);
     d
 }
 
